@@ -38,6 +38,9 @@ func r10paths(c *core.Ctx, fn *ssa.Function) {
 	// to the paths of this function (a step moved into a helper is still the same step)
 	p.InlineCalls = func(call *ssa.Call) bool {
 		callee := call.Call.StaticCallee()
+		if callee != nil && isNewCountMethod(callee) {
+			return true // a Count method outside the known vocabulary is seen through to the known ones
+		}
 		return callee != nil && fnPkgPath(callee) == pTglib && callee.Name() != "EncodeNasPduWithSecurity"
 	}
 	type cryptoCall struct {
@@ -358,13 +361,23 @@ func r10ie(c *core.Ctx) {
 			continue
 		}
 		bo, ok := iff.Cond.(*ssa.BinOp)
-		if !ok || bo.Op != token.EQL {
+		if !ok || (bo.Op != token.EQL && bo.Op != token.NEQ) {
 			continue
 		}
+		// id == NAS-PDU guards the true side, id != NAS-PDU (continue / skip) the false side
+		side := b.Succs[0]
+		if bo.Op == token.NEQ {
+			side = b.Succs[1]
+		}
+		idv := bo.X
 		k, isK := core.ConstInt(bo.Y)
-		if isK && k == idNAS && strings.HasSuffix(p.Path(bo.X), ".Id.Value") && b.Succs[0].Dominates(call.Block()) && len(b.Succs[0].Preds) == 1 {
+		if !isK {
+			k, isK = core.ConstInt(bo.X)
+			idv = bo.Y
+		}
+		if isK && k == idNAS && strings.HasSuffix(p.Path(idv), ".Id.Value") && side.Dominates(call.Block()) && len(side.Preds) == 1 {
 			// the IE whose id is tested is the IE whose value is decoded
-			ie := strings.TrimSuffix(p.Path(bo.X), ".Id.Value")
+			ie := strings.TrimSuffix(p.Path(idv), ".Id.Value")
 			if strings.HasPrefix(buf, ie+".") {
 				guarded = true
 			}
